@@ -38,7 +38,7 @@ FAIL_RE = re.compile(r'<<"FAIL",\s*"([^"]+)",\s*"([^"]*)",\s*(-?\d+),\s*(-?\d+)>
 STATES_RE = re.compile(r"(\d+) states generated, (\d+) distinct states found")
 
 
-def run_tlc(module, cfgfile, wd, env=None, workers=1, timeout=3600, extra=(), heap="2g", quickjit=True):
+def run_tlc(module, cfgfile, wd, env=None, workers=1, timeout=None, extra=(), heap="2g", quickjit=True):
     """Run TLC on spec/<module>.tla with spec/<cfgfile>; returns (rc, output)."""
     meta = os.path.join(wd, "meta")
     e = dict(os.environ)
@@ -51,6 +51,8 @@ def run_tlc(module, cfgfile, wd, env=None, workers=1, timeout=3600, extra=(), he
         "-workers", str(workers), "-metadir", meta, "-noGenerateSpecTE",
         "-config", os.path.join(SPEC, cfgfile),
     ] + list(extra) + [os.path.join(SPEC, module + ".tla")]
+    if timeout is None:
+        timeout = TLC_TIMEOUT_S
     try:
         p = subprocess.run(cmd, cwd=wd, env=e, stdout=subprocess.PIPE, stderr=subprocess.STDOUT,
                            timeout=timeout, text=True)
@@ -81,10 +83,14 @@ def expected_positions(cases):
 
 ALL_PROPS = ["C%02d" % i for i in range(1, 21)]
 MAX_SHARD_BYTES = 12 * 1024 * 1024
+# one TLC run may take this long before it counts as a machinery failure: generous, because a
+# loaded machine (several checks at once) slowed a 10-minute export beyond 30 minutes (thorough
+# C11 in run 5); override with VERIF_TLC_TIMEOUT
+TLC_TIMEOUT_S = int(os.environ.get("VERIF_TLC_TIMEOUT", "14400"))
 
 
 def validate_traces(cases, props=None, module="TracePdesy", cfgfile="TracePdesy.cfg", shards=16,
-                    timeout=3600, keep=False):
+                    timeout=None, keep=False):
     """Validate recorded cases with TLC.  Returns dict(fails, states, transitions, positions, wall)."""
     t0 = time.time()
     if not cases:
